@@ -156,10 +156,24 @@ func Seed() int {
 	return s
 }
 
+// ReplaySig, when set (./run <ID> --replay <file>), turns the run into a
+// re-execution of the enumeration at the recorded tier that reports only the
+// recorded signature: exit 1 with the VIOLATION line if it reproduces, exit 0
+// otherwise. No evidence is written and no other replay file is touched.
+var ReplaySig, ReplayFile string
+
 // Finish writes the evidence file, prints the protocol lines and returns the exit code.
 func (r *Run) Finish() int {
 	r.mu.Lock()
 	defer r.mu.Unlock()
+	if ReplaySig != "" {
+		if v, ok := r.viol[ReplaySig]; ok {
+			fmt.Fprintf(Out, "VIOLATION property=%s replay=%s\n  REPRODUCED sig: %s\n  cases: %d\n  detail: %s\n", r.Prop, ReplayFile, v.Sig, r.violN[ReplaySig], firstLines(v.Detail, 40))
+			return 1
+		}
+		fmt.Fprintf(Out, "NOT-REPRODUCED property=%s sig: %s (%d other signature(s) seen in this run)\n", r.Prop, ReplaySig, len(r.viol))
+		return 0
+	}
 	sigs := make([]string, 0, len(r.viol))
 	for s := range r.viol {
 		sigs = append(sigs, s)
@@ -196,7 +210,7 @@ func (r *Run) Finish() int {
 	for i, s := range fresh {
 		v := r.viol[s]
 		p := filepath.Join(OutRoot(), "replays", fmt.Sprintf("%s-%d.json", r.Prop, i))
-		data, _ := json.MarshalIndent(map[string]any{"property": r.Prop, "sig": v.Sig, "detail": v.Detail, "replay": v.Replay, "cases": r.violN[s]}, "", " ")
+		data, _ := json.MarshalIndent(map[string]any{"property": r.Prop, "sig": v.Sig, "detail": v.Detail, "replay": v.Replay, "cases": r.violN[s], "tier": r.Tier}, "", " ")
 		os.WriteFile(p, data, 0o644)
 		fmt.Fprintf(Out, "VIOLATION property=%s replay=%s\n", r.Prop, p)
 		fmt.Fprintf(Out, "  sig: %s\n  detail: %s\n", v.Sig, firstLines(v.Detail, 12))
